@@ -19,6 +19,17 @@ struct Mk {
   MAKE_CONST_MOCK1(cf, int(int));
   MAKE_MOCK2(g, int(int, int));
 };
+// the same functions on a mock class that is NOT movable (the library's default; another
+// specialisation of its expectation lists). Object slot OBJ_FIXED holds this type.
+struct MkN {
+  MAKE_MOCK1(f, int(int));
+  MAKE_MOCK1(h, int(int));
+  MAKE_MOCK1(ov, int(int));
+  MAKE_MOCK1(ov, int(std::string const&));
+  MAKE_MOCK1(v, void(int));
+  MAKE_CONST_MOCK1(cf, int(int));
+  MAKE_MOCK2(g, int(int, int));
+};
 
 struct Dwt {
   Dwt() = default;
@@ -70,8 +81,14 @@ thrown wthrow(int eid);                // THROW expression
 // sequence objects named by sites
 trompeloeil::sequence& wseq(int k);
 // objects named by sites
-Mk& wmock(int obj);
-template <int K> inline Mk& wmock_s(int obj) { return wmock(obj); }
+Mk& wmock(int obj);      // obj != OBJ_FIXED
+MkN& wmock_fixed();      // the object of slot OBJ_FIXED
+template <int K, class M> inline M& wmock_s(M& m) { return m; }
+// runs f on the mock object of slot obj, whatever its type
+template <class F> inline decltype(auto) with_mock(int obj, F&& f) {
+  if (obj == OBJ_FIXED) return f(wmock_fixed());
+  return f(wmock(obj));
+}
 
 using ExpPtr = std::unique_ptr<trompeloeil::expectation>;
 struct Created { ExpPtr p; unsigned long line; };
